@@ -324,13 +324,26 @@ func (c *Ctx) INC(rule string) []report.Obligation {
 		de := callSites(f, func(com *ssa.CallCommon) bool { return staticName(com) == "reflect.DeepEqual" })
 		good := false
 		for _, d := range de {
+			// the edge taken when the two definitions differ: the false edge of `if DeepEqual`, the true edge of `if !DeepEqual`
+			var diffs []*ssa.BasicBlock
 			for _, r := range *d.(ssa.Value).Referrers() {
-				if iff, ok := r.(*ssa.If); ok {
-					diff := iff.Block().Succs[1]
-					for _, ret := range returnsOf(f) {
-						if (diff == ret.Block() || diff.Dominates(ret.Block())) && c.dyn.definitelyNonNil(retValue(ret, 0), ret.Block(), 2) {
-							good = true
+				switch x := r.(type) {
+				case *ssa.If:
+					diffs = append(diffs, x.Block().Succs[1])
+				case *ssa.UnOp:
+					if x.Op == token.NOT {
+						for _, rr := range *x.Referrers() {
+							if iff, ok := rr.(*ssa.If); ok {
+								diffs = append(diffs, iff.Block().Succs[0])
+							}
 						}
+					}
+				}
+			}
+			for _, diff := range diffs {
+				for _, ret := range returnsOf(f) {
+					if (diff == ret.Block() || diff.Dominates(ret.Block())) && c.dyn.definitelyNonNil(retValue(ret, 0), ret.Block(), 2) {
+						good = true
 					}
 				}
 			}
